@@ -129,8 +129,34 @@ class Gen:
         lines: list[str] = []
         kind = rng.choice(["expr", "assign", "tuple_assign", "if_return", "if_elif_else_return", "if_fallthrough", "branch_assign",
                            "branch_reassign_live", "post_if_statements", "nested_if", "outside",
-                           "random_block", "random_block", "random_block", "random_block", "local_import", "call_compound_args"])
+                           "random_block", "random_block", "random_block", "random_block", "local_import", "call_compound_args", "table_call"])
         own = [(n, ar) for n, ar in fns if n.startswith("f") and n[1:].isdigit() and ar >= 2]
+        if kind == "table_call":
+            # a function of the translator's own table of known functions (math / numpy / built-ins) applied to the
+            # function's arguments, not to constants: translated to the same function, or refused
+            a, b = rng.choice(params), rng.choice(params)
+            call = rng.choice([
+                f"np.maximum({a}, {b})", f"np.minimum({a}, {b})", f"np.maximum({a}, 1.0)", f"np.minimum(1.5, {b})", f"math.remainder({a}, 2.0)",
+                f"math.remainder({a}, 1.0 + {b} * {b})", f"np.mod({a}, 2.0)", f"np.cbrt({a} - 1.5)", f"math.cbrt({a} - 1.5)", f"np.positive({a} - 1.5)",
+                f"np.sign({a} - 1.0)", f"math.atan2({a}, {b})", f"np.arctan2({a}, {b})", f"math.trunc({a} - 1.5)", f"np.trunc({a} - 1.5)", f"math.ceil({a})", f"np.floor({a})",
+                f"math.erf({a})", f"math.radians({a})", f"math.pow(1.0 + {a} * {a}, {b})", f"np.power(1.0 + {a} * {a}, {b})", f"np.add({a}, {b})", f"math.gamma(1.0 + {a})",
+                f"np.absolute({a} - 1.5)", f"np.conjugate({a})", f"np.arcsinh({a})", f"math.log(1.0 + {a} * {a})", f"np.tanh({a})",
+                f"(2.0 if np.less({a}, {b}) else 0.5)", f"(2.0 if np.greater({a}, {b}) else 0.5)", f"(2.0 if np.less_equal({a}, 1.0) else 0.5)", f"(2.0 if np.greater_equal({a}, 1.0) else 0.5)",
+            ])
+            if rng.random() < 0.4:
+                # the same table applied to constants (the result is a number the translator computes itself)
+                call = rng.choice([
+                    "np.positive(-1.5)", "(2.0 if np.less(1.0, 1.0) else 0.5)", "(2.0 if np.greater(1.0, 1.0) else 0.5)", "(2.0 if np.less_equal(1.0, 1.0) else 0.5)",
+                    "(2.0 if np.greater_equal(1.5, 1.0) else 0.5)", "math.remainder(5.0, 2.0)", "math.remainder(3.0, 2.0)", "math.cbrt(-8.0)", "np.cbrt(-8.0)", "np.sign(-2.0)",
+                    "math.trunc(-1.5)", "np.trunc(-1.5)", "np.mod(-3.0, 2.0)", "math.atan2(-1.0, -1.0)", "np.power(2.0, 0.5)", "math.ceil(-1.5)", "np.floor(-1.5)", "math.erf(0.5)",
+                    "math.gamma(2.5)", "math.factorial(4)", "math.gcd(12, 18)", "math.lcm(4, 6)", "np.conjugate(1.5)", "np.add(1.5, 2.0)", "np.maximum(1.5, 0.5)", "np.minimum(1.5, 0.5)",
+                    "math.radians(90.0)", "math.pow(2.0, 3.0)", "np.absolute(-2.5)", "abs(-2.5)", "max(1.5, 0.5, 2.5)", "min(1.5, 0.5)", "pow(2.0, 0.5)", "math.log(2.5)", "np.arctan2(1.0, -1.0)",
+                ]) + f" * {a}"
+                self.features.add("known_function_of_constants")
+            self.features.add("shape:table_call")
+            self.features.add("known_function_of_the_arguments:" + call.split("(")[0].replace("(2.0 if ", "").strip())
+            text = f"def {name}({', '.join(params)}):\n    return {call} + 0.25 * {rng.choice(params)}\n"
+            return text, set(self.features)
         if kind == "call_compound_args" and not own:
             kind = "expr"
         self.features.add(f"shape:{kind}")
@@ -299,7 +325,7 @@ class Gen:
 
     def module(self, nfun: int = 6) -> tuple[str, list[dict]]:
         rng = self.rng
-        head = f'"""generated"""\nimport math\nimport kinlib.constants\nimport kinlib.thermo.constants\nimport {self.helper}\nfrom {self.helper} import h2\n\nC1 = 1.25\ny = 0.75  # shadowed by the argument y wherever a function has one\n\n\ndef h1(a):\n    return a * 3.0 + 1.0\n\n\n'
+        head = f'"""generated"""\nimport math\nimport numpy as np\nimport kinlib.constants\nimport kinlib.thermo.constants\nimport {self.helper}\nfrom {self.helper} import h2\n\nC1 = 1.25\ny = 0.75  # shadowed by the argument y wherever a function has one\n\n\ndef h1(a):\n    return a * 3.0 + 1.0\n\n\n'
         src = [head]
         meta: list[dict] = []
         fns: list[tuple[str, int]] = [(f"{self.helper}.h1", 1), ("h2", 2), (f"{self.helper}.h3", 2), ("h1", 1)]
